@@ -340,6 +340,103 @@ def wfB (h : Heap) : Bool :=
   h.objs.all (fun o => decide (o.cps < h.bufs.length) && o.bases.all (fun b => decide (b < h.recs.length)))
   && h.recs.all (fun r => decide (r.knots < h.bufs.length))
 
+/-! ## Source-derived effects
+
+`Effect` is the summary that the AST effect inference (harness/props/_c11_effects.py) computes for
+the body of an operation, regenerated from the library sources on every run and emitted next to
+the contract table (`Splipy.Generated.C11.effect`).  `Consistent c e` is the (decidable) relation
+"effect `e`, as read off the source, is allowed by contract `c`".  Parameters are numbered as in the
+`def` (receiver `self` = 0, `cls` of a classmethod not counted); `operands` lists the parameters
+that are operands in the sense of the property (spline objects / bases), the others (parameter
+arrays, numbers, flags) are not constrained by C11. -/
+
+/-- What a `return` may hand back. -/
+inductive RetKind where
+  /-- the object passed as parameter `k` itself -/
+  | param (k : Nat)
+  /-- a view / alias of mutable state of parameter `k` (attribute, slice, numpy view, shallow copy,
+      container of its internals) -/
+  | view (k : Nat)
+  /-- a fresh value: copying constructor, `clone`, `deepcopy`, numpy arithmetic, a number -/
+  | fresh
+  | none_
+  /-- the inference could not decide (the dynamic experiment remains the only premise) -/
+  | unknown
+  deriving DecidableEq, Repr, Inhabited
+
+structure Effect where
+  /-- a source function was found and analysed -/
+  analysed : Bool
+  operands : List Nat
+  /-- parameters through which the body (or a library callee) may write -/
+  stores : List Nat
+  /-- a write through a value of unknown origin was seen -/
+  storesUnknown : Bool
+  returns : List RetKind
+  /-- `(t, s)`: a reference to state of parameter `s` is stored into parameter `t` -/
+  captures : List (Nat × Nat)
+  /-- the table documents a variant of this operation as an accessor handing out live internals
+      by design (`knots(with_multiplicities=True)`): alias returns are not held against it -/
+  allowViewReturn : Bool
+  deriving DecidableEq, Repr, Inhabited
+
+def Effect.notAnalysed : Effect :=
+  { analysed := false, operands := [], stores := [], storesUnknown := false, returns := [],
+    captures := [], allowViewReturn := false }
+
+def Effect.receiver (e : Effect) : Nat := e.operands.headD 0
+
+/-- no store through an operand -/
+def Effect.noOperandStores (e : Effect) : Bool := e.stores.all (fun k => !e.operands.contains k)
+
+/-- stores through operands go through the receiver only -/
+def Effect.storesOnlyReceiver (e : Effect) : Bool :=
+  e.stores.all (fun k => !e.operands.contains k || k == e.receiver)
+
+/-- no returned value is an operand or a view/alias of one -/
+def Effect.returnsNoAlias (e : Effect) : Bool :=
+  e.allowViewReturn || e.returns.all (fun r =>
+    match r with
+    | .param k => !e.operands.contains k
+    | .view k => !e.operands.contains k
+    | _ => true)
+
+/-- nothing keeps a reference to state of an operand (other than the operand itself) -/
+def Effect.noCaptures (e : Effect) : Bool :=
+  e.captures.all (fun c => !e.operands.contains c.2 || c.1 == c.2)
+
+/-- the receiver keeps no reference to state of another operand -/
+def Effect.receiverCapturesNothing (e : Effect) : Bool :=
+  e.captures.all (fun c => !(c.1 == e.receiver && e.operands.contains c.2 && c.1 != c.2))
+
+def Effect.returnsOnly (e : Effect) (r : RetKind) : Bool :=
+  e.returns.all (fun x => x == r || x == .unknown)
+
+/-- **Consistency of a contract with the effect read off the source.**
+* `query` / `fresh`: no store through an operand (a parameter rebound to a clone is a local), no
+  returned value aliases an operand, nothing keeps a reference to operand state;
+* `inPlace`: stores through operands only through the receiver, every `return` returns the
+  receiver, the receiver keeps no reference to another operand's state;
+* `procedure`: the same with every `return` returning `None`;
+* `procedureAll`: every `return` returns `None`.
+Aspects the inference marks `unknown` are not held against the contract (they stay premises of the
+dynamic experiment) and are counted separately (`Effect.fullyChecked`). -/
+def Consistent (c : Contract) (e : Effect) : Bool :=
+  !e.analysed ||
+  match c with
+  | .query => e.noOperandStores && e.returnsNoAlias && e.noCaptures
+  | .fresh => e.noOperandStores && e.returnsNoAlias && e.noCaptures
+  | .inPlace => e.storesOnlyReceiver && e.returnsOnly (.param e.receiver) && e.receiverCapturesNothing
+  | .procedure => e.storesOnlyReceiver && e.returnsOnly .none_ && e.receiverCapturesNothing
+  | .procedureAll => e.returnsOnly .none_
+
+/-- Analysed with no `unknown` aspect: the contract is checked against the source completely. -/
+def Effect.fullyChecked (e : Effect) : Bool :=
+  e.analysed && !e.storesUnknown && !e.returns.contains .unknown
+
+/-- Analysed, but some aspect is `unknown`. -/
+def Effect.partlyChecked (e : Effect) : Bool := e.analysed && !e.fullyChecked
+
 /-- A step that VIOLATES the contracts (used only in examples, to show that the invariant and the
     isolation theorem are not vacuous): hand out an object whose control points are a *view* of
     the operand's buffer — the unfixed shape of `section()`'s point case (it returned
